@@ -12,4 +12,4 @@ ASSUMPTIONS = [
 ]
 SPLIT = {"par2": [("_none", "not fa and not fb"), ("_a", "fa and not fb"), ("_b", "fb and not fa")],
          "map_items": [("_ok", "failing == -1"), ("_fail", "failing >= 0 and n >= 1")]}
-scn.register(globals(), {"C02"}, ["seq_chain", "two_execs", "start_routes", "par2", "par_pass_task", "map_items", "par3"], SPLIT)
+scn.register(globals(), {"C02"}, ["seq_chain", "seq_misc", "two_execs", "start_routes", "par2", "par_pass_task", "map_items", "par3"], SPLIT)
